@@ -834,5 +834,6 @@ func main() {
 	vh.RegisterFunc("sworld", runStatic)
 	vh.Tool("trybuild", tryBuild)
 	vh.RegisterFunc("osm", runOSM)
+	vh.RegisterFunc("yamlrt", runYAML)
 	vh.Main()
 }
